@@ -253,7 +253,7 @@ fn workers() -> usize {
 
 fn main() {
     let args: Vec<String> = std::env::args().collect();
-    std::panic::set_hook(Box::new(|_| {}));
+    chain::install_panic_hook();
     let code = match args.get(1).map(|s| s.as_str()) {
         Some("check") => cmd_check(&args),
         Some("replay") => cmd_replay(&args),
